@@ -102,22 +102,42 @@ func checkC10(c *Ctx, r *Result, tier string) {
 		for i, mu := range mus {
 			site := fmt.Sprintf("%s#decrement#%d", key, i)
 			pos := c.Pos(c.InstrPos(mu))
-			ok := false
-			for _, b := range fn.Blocks {
-				ifi, isIf := b.Instrs[len(b.Instrs)-1].(*ssa.If)
-				if !isIf {
-					continue
+			guardedAt := func(f *ssa.Function, at ssa.Instruction) bool {
+				for _, b := range f.Blocks {
+					ifi, isIf := b.Instrs[len(b.Instrs)-1].(*ssa.If)
+					if !isIf {
+						continue
+					}
+					call, isCall := unspill(ifi.Cond).(*ssa.Call)
+					if !isCall {
+						continue
+					}
+					if o := calleeObj(call.Common()); o == nil || o.Name() != "IsActivated" {
+						continue
+					}
+					br := b.Succs[0]
+					if len(br.Preds) == 1 && (br == at.Block() || br.Dominates(at.Block())) {
+						return true
+					}
 				}
-				call, isCall := unspill(ifi.Cond).(*ssa.Call)
-				if !isCall {
-					continue
-				}
-				if o := calleeObj(call.Common()); o == nil || o.Name() != "IsActivated" {
-					continue
-				}
-				br := b.Succs[0]
-				if len(br.Preds) == 1 && (br == mu.Block() || br.Dominates(mu.Block())) {
-					ok = true
+				return false
+			}
+			ok := guardedAt(fn, mu)
+			if !ok {
+				// the decrement as a helper (rm.priorityCompleted(m.Priority())): the guard is owed by every call site
+				if node := c.CHA().Nodes[fn]; node != nil {
+					sites := 0
+					all := true
+					for _, e := range node.In {
+						if e.Caller.Func == nil || e.Caller.Func.Synthetic != "" {
+							continue
+						}
+						if e.Site == nil || !c.inModule(e.Caller.Func) || !guardedAt(e.Caller.Func, e.Site) {
+							all = false
+						}
+						sites++
+					}
+					ok = all && sites > 0
 				}
 			}
 			if ok {
